@@ -48,22 +48,15 @@ def run_mutants(prop: str | None, seed: int) -> int:
                 shutil.rmtree(copy, ignore_errors=True)
                 continue
             t = time.monotonic()
-            env = dict(os.environ, VERIF_REPO=copy, VERIF_SEED=str(seed), PYTHONPATH=copy)
-            ev = os.path.join(common.EVIDENCE_DIR, f"{pid}.json")
-            saved = open(ev).read() if os.path.exists(ev) else None
-            try:
-                r = subprocess.run([sys.executable, "-m", "dsim", "check", pid, "--tier", "quick"], cwd=common.VERIF, env=env,
-                                   capture_output=True, text=True, timeout=1800)
-            finally:
-                if saved is not None:  # a mutant run must not leave its evidence behind
-                    open(ev, "w").write(saved)
+            env = dict(os.environ, VERIF_REPO=copy, VERIF_SEED=str(seed), PYTHONPATH=copy,
+                       VERIF_EVIDENCE_DIR=os.path.join(root, "evidence"), VERIF_REPLAY_DIR=os.path.join(root, "replays"))
+            r = subprocess.run([sys.executable, "-m", "dsim", "check", pid, "--tier", "quick"], cwd=common.VERIF, env=env,
+                               capture_output=True, text=True, timeout=1800)
             got_v = "VIOLATION property=" in r.stdout
             lines = [ln for ln in r.stdout.splitlines() if ln.startswith(("VIOLATION", "  violation", "HARNESS-ERROR"))]
             ok = (got_v == expect_violation) and r.returncode in (0, 1)
             results.append((name, "ok" if ok else "MISSED" if expect_violation else "FALSE-ALARM",
                             f"exit={r.returncode} {time.monotonic() - t:.0f}s " + " | ".join(lines[:3])[:400]))
-            for f in glob.glob(os.path.join(common.REPLAY_DIR, "*.json")):
-                os.remove(f)
             shutil.rmtree(copy, ignore_errors=True)
             log(f"mutant {name}: {results[-1][1]} {results[-1][2]}")
     finally:
@@ -82,9 +75,12 @@ def run_determinism(prop: str | None, seed: int) -> int:
     for pid in ([prop] if prop else ["C20", "C14"]):
         digs = []
         for hs, workers in ((0, 16), (12345, 16), (777, 3)):
-            env = dict(os.environ, PYTHONHASHSEED=str(hs), VERIF_WORKERS=str(workers), VERIF_SEED=str(seed), VERIF_DIGEST="1")
+            scratch = common.scratch_root()
+            env = dict(os.environ, PYTHONHASHSEED=str(hs), VERIF_WORKERS=str(workers), VERIF_SEED=str(seed),
+                       VERIF_EVIDENCE_DIR=os.path.join(scratch, "evidence"), VERIF_REPLAY_DIR=os.path.join(scratch, "replays"))
             r = subprocess.run([sys.executable, "-m", "dsim", "check", pid, "--tier", "quick"], cwd=common.VERIF, env=env,
                                capture_output=True, text=True, timeout=3600)
+            common.rmtree(scratch)
             d = [ln for ln in r.stdout.splitlines() if ln.startswith("RUN-DIGEST")]
             digs.append((hs, workers, r.returncode, d[-1] if d else "none"))
             log(f"determinism {pid}: driver PYTHONHASHSEED={hs} workers={workers} exit={r.returncode} {d[-1] if d else 'no digest'}")
